@@ -17,6 +17,24 @@ COMMON_ASSUME = [
     'the harness crate, its monitors and the kernel interfaces it reads (/proc/self/fdinfo, poll(2)) are trusted',
 ]
 
+MANIFEST_META = dict(
+    hook_commits=['0025b22'],
+    engines=dict(
+        tok='key-space enumerator: round trip of poller keys through calloop\'s own conversion code, token factories, kernel cross-check',
+        trans='exhaustive enumerator of protocol-conforming TransientSource sequences (mock child by direct calls, real children in a real loop)',
+        hist='single-threaded history engine: generated histories of loop operations and callback programs, trace + ledger + online monitors',
+        sched='thread-schedule engine: client threads against a loop thread, yield-point delay plans, offline history checkers',
+        sig='signals engine: one fresh single-threaded process per history, kernel signal mask / handler counters as oracle',
+        aio='Async adapter engine: byte streams through adapters with random chunking, kernel readiness and fcntl flags as oracle',
+        wait='wait-duration engine: timeout x timer x idle-population grid',
+    ),
+    notes='Runtime monitoring only: every check runs the real calloop code (built from /repo\'s working tree with --cfg calloop_verif) '
+          'under generated workloads and decides with monitors over the recorded trace plus kernel probes; sanitizer legs run in the thorough tier. '
+          'Known findings: known_findings.json; design: DESIGN.md.',
+)
+
+NOT_APPLICABLE = {}
+
 PROPS = {
     'C18': dict(
         legs=[dict(name='native', bin='trans', shards=16, timeout=dict(quick=300, thorough=3000))],
@@ -26,6 +44,12 @@ PROPS = {
              'real eventfd-Generic and Timer children through a real loop); non-trivial = the sequence changed the child '
              '(disable/remove/replace/reregister) or forwarded at least one event; distinct = distinct operation sequences',
         exhaustive_scope='all protocol-conforming sequences up to the lengths given in notes, at most 3 children per sequence',
+        level_text='bounded-exhaustive runtime exploration: every protocol-conforming sequence up to length 6 (quick) / 8 (thorough) is executed '
+                   'against the real TransientSource with an instrumented child, and up to length 5 / 7 with real fd and timer children in a real loop; '
+                   'monitors check registration state at every quiescent point. Longer sequences are not covered.',
+        level_note='trusted: the protocol model that decides which sequences conform and which child is current; the mock child\'s own bookkeeping; '
+                   '/proc/self/fdinfo and the timer-heap statistic hook as witnesses for real children',
+        technique='runtime monitoring: bounded-exhaustive sequence enumeration with invariant monitors at quiescent points',
         assumptions=COMMON_ASSUME + ['protocol = parent register/unregister alternate, reregister only while registered, '
                                      'after a change made while registered the next registration call is reregister',
                                      'replace() on an empty wrapper and the effect of a parent register on a disabled child are not judged'],
@@ -38,6 +62,10 @@ PROPS = {
              'handed out (factories); distinct classes = (slot id, version-range) planes, factory configurations and '
              'decoded kernel keys actually seen',
         exhaustive_scope='all 2^32 (generation, sub id) pairs of every slot id listed in notes; random triples and factories are sampled',
+        level_text='exhaustive execution over complete (generation, sub id) planes for 4 (quick) / 48 (thorough) slot ids incl. the boundary ids, '
+                   'plus 8e6 / 1e8 random triples, token factories driven past their capacity and the kernel\'s copy of the key; the 2^32 slot ids are sampled, not enumerated',
+        level_note='trusted: the hook accessors are thin wrappers over the private conversions (src/verif.rs); 64-bit layout only',
+        technique='runtime monitoring: exhaustive round-trip execution of the real conversion code with assertions',
         assumptions=COMMON_ASSUME + ['64-bit usize layout (16/16/32 bits); 32- and 16-bit layouts are not compiled here'],
     ),
 }
